@@ -2,6 +2,7 @@ package gen
 
 import (
 	"fmt"
+	"go.temporal.io/server/common/codec"
 	"math/rand"
 	"strings"
 
@@ -146,17 +147,17 @@ func init() {
 // EventBlobSites: the DataBlob fields (by full name) that carry serialized history events.
 // Reviewed table over all 16 DataBlob fields in the closure of both services.
 var EventBlobSites = map[string]bool{
-	"temporal.api.workflowservice.v1.GetWorkflowExecutionHistoryResponse.raw_history":             true,
-	"temporal.server.api.adminservice.v1.GetWorkflowExecutionRawHistoryResponse.history_batches":  true,
+	"temporal.api.workflowservice.v1.GetWorkflowExecutionHistoryResponse.raw_history":              true,
+	"temporal.server.api.adminservice.v1.GetWorkflowExecutionRawHistoryResponse.history_batches":   true,
 	"temporal.server.api.adminservice.v1.GetWorkflowExecutionRawHistoryV2Response.history_batches": true,
-	"temporal.server.api.adminservice.v1.ImportWorkflowExecutionRequest.history_batches":          true,
-	"temporal.server.api.adminservice.v1.ReapplyEventsRequest.events":                             true,
-	"temporal.server.api.replication.v1.BackfillHistoryTaskAttributes.event_batches":              true,
-	"temporal.server.api.replication.v1.HistoryTaskAttributes.events":                             true,
-	"temporal.server.api.replication.v1.HistoryTaskAttributes.events_batches":                     true,
-	"temporal.server.api.replication.v1.HistoryTaskAttributes.new_run_events":                     true,
-	"temporal.server.api.replication.v1.NewRunInfo.event_batch":                                   true,
-	"temporal.server.api.replication.v1.VersionedTransitionArtifact.event_batches":                true,
+	"temporal.server.api.adminservice.v1.ImportWorkflowExecutionRequest.history_batches":           true,
+	"temporal.server.api.adminservice.v1.ReapplyEventsRequest.events":                              true,
+	"temporal.server.api.replication.v1.BackfillHistoryTaskAttributes.event_batches":               true,
+	"temporal.server.api.replication.v1.HistoryTaskAttributes.events":                              true,
+	"temporal.server.api.replication.v1.HistoryTaskAttributes.events_batches":                      true,
+	"temporal.server.api.replication.v1.HistoryTaskAttributes.new_run_events":                      true,
+	"temporal.server.api.replication.v1.NewRunInfo.event_batch":                                    true,
+	"temporal.server.api.replication.v1.VersionedTransitionArtifact.event_batches":                 true,
 }
 
 func IsEventBlobSite(f protoreflect.FieldDescriptor) bool {
@@ -170,6 +171,16 @@ func EncodeEvents(events []*historypb.HistoryEvent) *commonpb.DataBlob {
 		panic(err)
 	}
 	return &commonpb.DataBlob{EncodingType: enumspb.ENCODING_TYPE_PROTO3, Data: b}
+}
+
+// EncodeEventsJSON: the same batch as a JSON-encoded blob - the other encoding Temporal's serializer
+// (and so the proxy's blob translation) decodes. Written with Temporal's own JSON codec.
+func EncodeEventsJSON(events []*historypb.HistoryEvent) *commonpb.DataBlob {
+	b, err := codec.NewJSONPBEncoder().Encode(&historypb.History{Events: events})
+	if err != nil {
+		panic(err)
+	}
+	return &commonpb.DataBlob{EncodingType: enumspb.ENCODING_TYPE_JSON, Data: b}
 }
 
 // EncodeEventsDeterministic: canonical bytes for comparisons (map entries in key order).
@@ -192,7 +203,11 @@ func FillNamespaceSites(m proto.Message, val string) {
 			for _, e := range evs {
 				fill(e.ProtoReflect())
 			}
-			blob.Data = EncodeEvents(evs).Data
+			if blob.EncodingType == enumspb.ENCODING_TYPE_JSON {
+				blob.Data = EncodeEventsJSON(evs).Data
+			} else {
+				blob.Data = EncodeEvents(evs).Data
+			}
 		}
 	}
 	fill = func(pm protoreflect.Message) {
@@ -240,6 +255,12 @@ func DecodeEvents(b *commonpb.DataBlob) ([]*historypb.HistoryEvent, bool) {
 		return nil, true
 	}
 	var h historypb.History
+	if b.EncodingType == enumspb.ENCODING_TYPE_JSON {
+		if err := codec.NewJSONPBEncoder().Decode(b.Data, &h); err != nil {
+			return nil, false
+		}
+		return h.Events, true
+	}
 	if err := proto.Unmarshal(b.Data, &h); err != nil {
 		return nil, false
 	}
